@@ -25,6 +25,11 @@ def mk_cfg(ctx, variant="main"):
     if variant == "main":
         return pm.Cfg(seed=ctx.seed, slots=("A", "B") if ctx.thorough else ("A",), max_objs=2, actions=acts, clock=False,
                       queries=("name", "ppid"), numeric=False, use_iter=True, max_denies=1, oneshot=True)
+    if variant == "clock":
+        # wall-clock steps and boot_time()/cpu_stats() between the death of a process and the recycling of its pid: the one
+        # action is delivered to the right incarnation or refused
+        return pm.Cfg(seed=ctx.seed, slots=("A",), max_objs=1, actions=("kill",), clock=True, queries=(), numeric=True,
+                      use_iter=False, use_exit=False, sys_calls=pm.SYS_CALLS[:1])
     if variant == "iterfault":
         # objects handed out by process_iter() (held by the caller), one-shot resource failure of the identity probe
         return pm.Cfg(seed=ctx.seed, slots=("A",), max_objs=2, actions=acts[:3], clock=False, queries=("name",), numeric=False,
@@ -95,7 +100,8 @@ def run(ctx):
     global _CFG
     extra = {}
     extra_viols = []
-    for variant, d in (("popen", 7 if ctx.thorough else 6), ("ownpid", 7 if ctx.thorough else 6), ("iterfault", 8 if ctx.thorough else 7)):
+    for variant, d in (("popen", 7 if ctx.thorough else 6), ("ownpid", 7 if ctx.thorough else 6), ("iterfault", 8 if ctx.thorough else 7),
+                       ("clock", 9 if ctx.thorough else 8)):
         if ctx.alt:
             continue          # (second pass with procfs mounted elsewhere: the main variant, two events shorter)
         _CFG = mk_cfg(ctx, variant)
